@@ -6,7 +6,7 @@ from common import *
 from dialogue import *
 import gen_smtp as G
 
-ACTIONS = ["ok1", "okN", "3xx", "4xx", "4xxN", "5xx", "5xxN", "bare", "wrongcont", "garbage", "partial_close", "close", "reply_close", "extra", "nonutf8"]
+ACTIONS = ["ok1", "okN", "okBig", "3xx", "4xx", "4xxN", "5xx", "5xxN", "bare", "wrongcont", "garbage", "partial_close", "close", "reply_close", "extra", "nonutf8"]
 
 
 def act_chunk(rng, a, pos):
@@ -21,6 +21,8 @@ def act_chunk(rng, a, pos):
         ls = [t0()]; return G.reply(okc, ls), False, ("pos", okc, ls)
     if a == "okN":
         ls = [t0()] + [t() for _ in range(rng.randint(1, 3))]; return G.reply(okc, ls), False, ("pos", okc, ls)
+    if a == "okBig":
+        w, ls = G.big_reply(rng, okc, first=t0()); return w, False, ("pos", okc, ls)
     if a == "3xx":
         ls = [t0()]; return G.reply(334, ls), False, ("pos", 334, ls)
     if a in ("4xx", "4xxN"):
